@@ -19,8 +19,8 @@ CHECKS = {
    "5/C02"),
  "C03": ("vrt",
    "bounded-exhaustive enumeration of SEQUENCE/SET shapes x presence patterns with random payloads, preamble/reference/decode oracles",
-   "All 142 SEQUENCE + 142 SET shapes with <= 3 components are compiled through the real pipeline; for each all 2^k presence patterns x 3 payloads are encoded: preamble computed from the shape, full bits == reference, decode returns the presence written, refusal only ExtensionFieldsInconsistent for the documented pattern - and for that pattern the reference encoder's bits (what a peer may send) must decode to the pattern.",
-   "Component types rotate through six small types; shapes beyond N components are not covered.",
+   "All 142 SEQUENCE + 142 SET shapes with <= 3 components (plus a nested family and a wide family with 63..130 OPTIONAL/DEFAULT root components / 63..70 extension additions, whose patterns are sampled) are compiled through the real pipeline; for each all 2^k presence patterns x 3 payloads are encoded: preamble computed from the shape, full bits == reference, decode returns the presence written, refusal only ExtensionFieldsInconsistent for the documented pattern - and for that pattern the reference encoder's bits (what a peer may send) must decode to the pattern.",
+   "Component types rotate through six small types; between N and 63 components nothing is covered, the wide family is sampled.",
    "5/C03"),
  "C05": ("vrt",
    "property-based cross-version testing on compiled schema pairs with a sentinel message and projection/lift oracles",
@@ -46,7 +46,7 @@ CHECKS = {
    "bounded-exhaustive enumeration + proptest random cases and operation histories against a Vec<bool> model",
    "Every single write/read operation on (&mut [u8], &mut usize), (&[u8], &mut usize) and Bits with both buffers up to 5 bytes "
    "(6 in thorough) is enumerated completely with three fill patterns and compared bit for bit with a naive bit-vector model; random "
-   "buffers up to 64 bytes and random BitBuffer operation histories (proptest, shrinking) extend this beyond the enumerated sizes. "
+   "buffers up to 64 bytes and random BitBuffer operation histories (appends, overwrites at earlier positions, views; proptest, shrinking) extend this beyond the enumerated sizes. "
    "Exploration, not proof: sizes beyond the enumeration are sampled.",
    "Trusted: the Vec<bool> model in vcore::bitmodel (20 lines). Derived-length operations are called only within their precondition "
    "(offset <= 8*len). Nothing is asserted about slice content after Err.",
@@ -74,12 +74,12 @@ CHECKS = {
    "5/C09"),
  "C12": ("vfront",
    "metamorphic property testing (proptest): literal module vs. referencing variant across all load orders, plus negative variants",
-   "A random subset of the literal sites of a generated module (in every fourth case with ranges / sizes made degenerate n..n) is replaced by value references assigned before/after the use or in 1..3 sibling modules imported by name, by OID or both; for every load order into MultiModuleResolver (and try_resolve) the resolved definitions equal those of the literal module. Negative variants (missing assignment, removed import with a same-named symbol elsewhere, exporter not loaded, BOOLEAN / character string / hstring / bstring where an integer is needed) must give Err for every load order.",
+   "A random subset of the literal sites of a generated module (in every fourth case with ranges / sizes made degenerate n..n) is replaced by value references assigned before/after the use or in 1..3 sibling modules imported by name, by OID or both; for every load order into MultiModuleResolver (and try_resolve) the resolved definitions equal those of the literal module; every third scenario has DEFAULT components typed by references that cannot be looked up. Negative variants (missing assignment, removed import with a same-named symbol elsewhere, exporter not loaded, BOOLEAN / character string / hstring / bstring where an integer is needed) must give Err for every load order.",
    "Load orders are enumerated completely up to 4 modules.",
    "5/C12"),
  "C13": ("vfront",
    "metamorphic property testing (proptest) over token layouts with comments; token-sequence, model and Location oracles",
-   "Generated modules are printed as lexical items; a layout picks a separator per boundary from {empty, blank, tab, LF, CRLF, CR, long runs of blanks / line breaks (columns and lines beyond 255 / 4095 / 65535), line / block / nested block comments with varied text (incl. continuation lines starting with --) and adjacency}. Token sequence and resolved model must equal those of the plain layout and (ASCII) each token's Location must equal the line/column where the printer put it.",
+   "Generated modules are printed as lexical items; a layout picks a separator per boundary from {empty, blank, tab, LF, CRLF, CR, long runs of blanks / line breaks (columns and lines beyond 255 / 4095 / 65535), line / block / nested block comments with varied text (incl. continuation lines starting with --) and adjacency}, with and without a final newline. Token sequence and resolved model must equal those of the plain layout and (ASCII) each token's Location must equal the line/column where the printer put it.",
    "Location columns are compared for ASCII layouts only (non-ASCII comments are generated but only token/model equality is judged there).",
    "5/C13"),
  "C14": ("vfront",
@@ -94,7 +94,7 @@ CHECKS = {
    "5/C15"),
  "C16": ("vfront",
    "bounded-exhaustive permutation testing on the macro expansion (part a) + property-based differential testing of compiled SET types against the reference codec (part b)",
-   "Part a: for every pair of untagged candidates with different outermost tags (builtin types, inline SEQUENCE / SEQUENCE OF / SET / SET OF / ENUMERATED, references incl. an extensible untagged CHOICE whose extension alternative has the smallest tag) next to one tagged component, and for generated multisets of 2..5 components (four tag classes, OPTIONAL / DEFAULT, with/without extension marker) ALL root permutations are printed as SET, expanded through asn_to_rust -> syn -> parse_asn_definition -> expand; write_seq/read_seq order and TAG constants == own X.680 8.6 implementation. Part b (vrt): a compiled family in three permutations each; UPER bits and presence-bit order == reference codec.",
+   "Part a: for every pair of untagged candidates with different outermost tags (builtin types, inline SEQUENCE / SEQUENCE OF / SET / SET OF / ENUMERATED, references incl. an extensible untagged CHOICE whose extension alternative has the smallest tag) next to one tagged component, and for generated multisets of 2..5 components (four tag classes, tag numbers up to 1011, OPTIONAL / DEFAULT, with/without extension marker) ALL root permutations are printed as SET, expanded through asn_to_rust -> syn -> parse_asn_definition -> expand; write_seq/read_seq order and TAG constants == own X.680 8.6 implementation. Part b (vrt): a compiled family in three permutations each; UPER bits and presence-bit order == reference codec.",
    "Extension additions are generated with tags ascending in textual order (where canonical order and order of definition coincide).",
    "5/C16"),
  "C17": ("vrt",
